@@ -89,6 +89,10 @@ def extract(ctx):
     else:
         names = [ast.unparse(h.type)]
     g.strings('routerHandlers', names)
+    loops = [n for n in ast.walk(rrun) if isinstance(n, ast.While)]
+    X.expect(len(loops) == 1, 'CPXRouter.run: expected one loop')
+    g.strings('routerStateOutsideLoop', [ast.unparse(n) for n in rrun.body if not isinstance(n, (ast.While, ast.Expr))])
+    g.strings('routerQueueReads', sorted({ast.unparse(n) for n in ast.walk(loops[0]) if isinstance(n, (ast.Subscript, ast.Call, ast.Compare)) and '_rxQueues' in ast.unparse(n) and 'put' not in ast.unparse(n)}))
     g.raw('def routerHandlerLeavesLoop : Bool := ' + ('true' if any(isinstance(n, (ast.Break, ast.Return, ast.Raise)) for b in h.body for n in ast.walk(b)) else 'false'))
     g.raw('def routerTryInsideLoop : Bool := ' + ('true' if any(isinstance(n, ast.While) and tries[0] in n.body for n in ast.walk(rrun)) else 'false'))
     # socket transport: length prefix format/argument, the recv() argument and the loop condition
@@ -302,15 +306,21 @@ def real_frame(src, dst, fn, last, data):
 
 
 class ScriptTransport:
-    def __init__(self, pkts, router_holder):
-        self.pkts = list(pkts)
-        self.h = router_holder
+    """feeds CPXRouter.run() ONE continuous run: registrations scripted between two packets are performed from inside
+    readPacket(), i.e. while the router thread's loop is alive (as a receiver thread calling receivePacket would)"""
+
+    def __init__(self, script, router, do_reg):
+        self.script = list(script)
+        self.router = router
+        self.do_reg = do_reg
 
     def readPacket(self):
-        p = self.pkts.pop(0)
-        if not self.pkts:
-            self.h[0]._connected = False      # last packet of the batch: the loop condition ends run()
-        return p
+        while self.script and self.script[0][0] == 'reg':
+            self.do_reg(self.script.pop(0)[1])
+        op = self.script.pop(0)
+        if not any(o[0] == 'pkt' for o in self.script):
+            self.router._connected = False      # last packet: the loop condition ends run()
+        return op[1]
 
 
 def real_router(script):
@@ -318,37 +328,38 @@ def real_router(script):
     import contextlib
     import io
     cpx, _ = _cpx()
-    # The router thread is driven synchronously: we call its loop body through run() on scripted batches.
-    h = [None]
     r = cpx.CPXRouter.__new__(cpx.CPXRouter)
     r._rxQueues = {}
     r._connected = True
-    h[0] = r
-    with contextlib.redirect_stdout(io.StringIO()):
-        batch = []
 
-        def flush():
-            if batch:
-                r._transport = ScriptTransport(batch[:], h)
-                r._connected = True
-                r.run()
-                del batch[:]
+    def do_reg(fn):
+        if fn in r._rxQueues:
+            return        # a further blocking receive on an existing queue: consumption is done at the end
+        try:
+            r.receivePacket(cpx.CPXFunction(fn), timeout=0.0)
+        except queue.Empty:
+            pass
+    died = False
+    with contextlib.redirect_stdout(io.StringIO()):
+        ops = []
         for op in script:
             if op[0] == 'reg':
-                flush()
-                if op[1] in r._rxQueues:
-                    continue      # a further blocking receive on an existing queue: consumption is done at the end
-                try:
-                    r.receivePacket(cpx.CPXFunction(op[1]), timeout=0.0)
-                except queue.Empty:
-                    pass
+                ops.append(op)
             else:
-                p = cpx.CPXPacket(function=cpx.CPXFunction(op[1]), destination=cpx.CPXTarget.HOST, data=bytearray([op[2]]))
-                batch.append(p)
-        flush()
+                ops.append(('pkt', cpx.CPXPacket(function=cpx.CPXFunction(op[1]), destination=cpx.CPXTarget.HOST, data=bytearray([op[2]]))))
+        if any(o[0] == 'pkt' for o in ops):
+            t = ScriptTransport(ops, r, do_reg)
+            r._transport = t
+            try:
+                r.run()
+            except BaseException:
+                died = True
+            ops = t.script
+        for op in ops:            # registrations before the first / after the last packet
+            if op[0] == 'reg':
+                do_reg(op[1])
     out = []
     for fnv in sorted(r._rxQueues):
-        q = r._rxQueues[fnv]
         items = []
         while True:
             try:     # consume through the public receive path
@@ -356,7 +367,7 @@ def real_router(script):
             except queue.Empty:
                 break
         out.append('%d:%s' % (fnv, ','.join(items) if items else '-'))
-    return 'ok ' + (' '.join(out) if out else '-')
+    return 'ok ' + (' '.join(out) if out else '-') + (' DIED' if died else '')
 
 
 class StreamSocket(FakeSocket):
